@@ -18,8 +18,9 @@
    task in the schedule fails with "scheduled task is not runnable" before the target is reached), and a dropped step
    that spawned a task shifts the ids of the tasks created later (F37). *)
 From Coq Require Import List NArith Bool Arith.
-From SV Require Import Clock.VClock Engine.Exec Sched.ReplayTarget Proofs.ReplayTargetProofs.
+From SV Require Import Clock.VClock Engine.Exec Prim.Objects Prim.Semaphore Sched.ReplayTarget Proofs.ReplayTargetProofs Proofs.ClockPrecision.
 Import ListNotations.
+Close Scope N_scope.
 
 Theorem C15_target_drops_only_concurrent : forall target offered steps t c,
   In (t, c) (rt_dropped target offered steps) -> find_task offered t = Some c /\ vle c target = false.
@@ -70,4 +71,32 @@ Proof. vm_compute. reflexivity. Qed.
 
 Example C15_target_hypotheses_satisfiable :
   find_task [(0, [2; 0; 0]%N); (2, [2; 0; 1]%N)] 2 = Some [2; 0; 1]%N /\ vle [2; 0; 1]%N [2; 1; 1]%N = true /\ vle [2; 1; 1]%N [2; 2; 1]%N = true.
+Proof. vm_compute. auto. Qed.
+
+(* ---- precision ("... connected by no chain of such edges are never reported as ordered"), for the one place where the
+   model keeps a queue of stamped clocks that an operation consumes partially: the permit batches of the BatchSemaphore
+   (PermitsAvailable::acquire).  An acquisition of k > 0 permits from a queue without empty batches joins the clocks of
+   exactly the first m batches, each of which gives it at least one permit (the first m-1 batches hold fewer than k
+   permits together), and leaves no empty batch behind; a release of k > 0 permits appends a non-empty batch.  So no
+   acquisition ever inherits the clock of a release from which it took nothing.  (The other primitives stamp one clock
+   per object or per message: their edge theorems in Props/C15edges.v are equalities.)
+   On the crate this is decided by the clock comparison of every record with this model: a record whose clock is
+   pointwise above the model's is reported as a precision violation with the program as the failing input. *)
+Theorem C15_precision_permit_batches : forall bs k clk bs' clk' miss,
+  batches_pos bs -> (0 < k)%N ->
+  take_batches bs k clk = (bs', clk', miss) ->
+  exists m, (m <= length bs)%nat /\
+            clk' = fold_left update (map snd (firstn m bs)) clk /\
+            (sizes_sum (firstn (m - 1) bs) < k)%N /\
+            batches_pos bs'.
+Proof. exact take_batches_precise. Qed.
+Print Assumptions C15_precision_permit_batches.
+
+Theorem C15_precision_release_nonempty : forall bs k c, batches_pos bs -> (0 < k)%N -> batches_pos (bs ++ [(k, c)]).
+Proof. exact release_keeps_batches_pos. Qed.
+Print Assumptions C15_precision_release_nonempty.
+
+Example C15_precision_exact_batch_is_removed :
+  take_batches [(2, [1; 0]); (1, [0; 3])]%N 2 [] = ([(1, [0; 3])]%N, [1; 0]%N, 0%N) /\
+  take_batches [(1, [0; 3])]%N 1 [] = ([], [0; 3]%N, 0%N).
 Proof. vm_compute. auto. Qed.
